@@ -148,6 +148,29 @@ class Env:
         self.conc_inputs[name] = v
         return v.copy()
 
+    def choice(self, name, n):
+        """nondeterministic choice of an index in range(n): explored exhaustively by forking (symbolic mode), taken from the
+        replayed values or drawn at random (concrete mode)"""
+        if n <= 1:
+            return 0
+        if self.sym:
+            from .array import sym_bool
+            a = sym_bool(name, (n - 1,))
+            self.inputs[name] = ('bool', (n - 1,), a)
+            for i in range(n - 1):
+                if bool(a._a[i]):
+                    return i
+            return n - 1
+        if name in self.values:
+            bits = list(np.array(self.values[name], dtype=bool).reshape(-1))
+            for i, b in enumerate(bits):
+                if b:
+                    return i
+            return n - 1
+        v = int(self.rng.randint(n))
+        self.conc_inputs[name] = np.array([i == v for i in range(n - 1)])
+        return v
+
     def readonly(self, arr):
         """mark an input read-only exactly like a caller's read-only ndarray"""
         if _is_symarr(arr):
